@@ -14,6 +14,7 @@ FINDINGS={
  'D22': "a group captured on an alternative that is later abandoned is reported by analyze as present and empty instead of absent: rolling back only shrinks the group to zero length ('(?:(a)|b?)a' on the third 'a' of 'aaa' yields Group{nr:1} although group 1 did not participate); the same rollback mechanism as D9",
  'D26': "the dotted capital I (U+0130) and the dotless small i (U+0131) are simple case counterparts of 'i' and 'I' (their simple lower- / upper-case mappings), but ICU's case closure and simple case folding leave them out: under flag i the class [i] does not match U+0130 while the literal i does, U+0131 and I never match each other, and since the literal U+0130 does match 'i' (lower-case comparison) while the first-character analysis (case closure) says it cannot, 'U+0130*i' is turned into a non-backtracking repeat and no longer matches 'i'; a complete repair needs a reverse table of the simple case mappings for the class closure and the first-character sets, which is a design change rather than a minimal patch",
  'D28': "a pattern nested 100000 levels deep (groups, non-capturing groups, right-nested alternations, class subtractions, optional groups, quantified groups) overflows the stack and aborts the process instead of returning Ok or Err(Syntax): parser, optimiser, matcher and Drop all recurse on the nesting depth (observed in a subprocess on a thread with a fixed 16 MiB stack; depths up to 256 complete). A nesting limit would turn the abort into an error but reject grammar-valid patterns (C07), an iterative rewrite of four recursive passes is not a small patch",
+ 'D31': "a greedy repeat whose body has a fixed length (GreedyFixed) tries only the FIRST way of matching its body in each iteration; when the ways differ in which group captures (alternatives of equal length that capture different groups), a back-reference to a group of a later alternative finds nothing: '^(?:(a)|([ab]))+=\\2$' does not match 'a=a', '^(?:(ab)|a(b))+\\2$' does not match 'abb' (reported by a seeding sub-agent of round 8 as pre-existing). A repair would compile such bodies to the general Repeat, which changes the operation behind every '(x|y)*' with groups and puts D9's rollback behaviour behind it: not a small patch",
  'D9': "a capturing group inside a repetition reports the wrong text after backtracking into the repetition: captures of abandoned iterations are not restored ('(a)*a' on 'aa' gives $1 = '' instead of 'a'; '(?:(a)+\\1){2}' matches 'aaa')",
 }
 def classify(prop, key, shape):
@@ -26,6 +27,7 @@ def classify(prop, key, shape):
         # the large range contains U+0130 / U+0131; their counterparts i / I are the input
         if scope=='related' and f[2].startswith('^[\\u{100}-') and f[5] in ('i','I'): return 'D26'
         return None
+    if prop=='C19' and scope=='ladder' and key.split('|')[2].startswith('^(?:(a)\\u{7c}([ab])') and kind in ('WrongFalse',): return 'D31'
     if scope.startswith('DUP'): return 'D19'
     if scope.startswith('HIST'): return 'D24'
     if scope=='deep nesting': return 'D28' if (kind=='Abort' and 'depth 100000' in key) else None
